@@ -188,6 +188,130 @@ def lifetime(m, ctx):
     return obs
 
 
+def lifetime_inherited(m, method):
+    """the same history with a child of another start method that gets the proxy as an argument
+    (rebuilt while the child is bootstrapped): Create, Share, Drop (parent), Call (child), Drop"""
+    ctx = billiard.get_context(method)
+    obs, ids, prox, nprox = [], {}, set(), [0]
+    base = set(refcounts(m))
+
+    def aid(ident):
+        if ident not in ids:
+            ids[ident] = len(ids) + 1
+        return ids[ident]
+
+    def snap(act, last=('none', 0), length=0):
+        rc = {k: v for k, v in refcounts(m).items() if k not in base}
+        live = {aid(k): v for k, v in rc.items()}
+        nobj = len(ids)
+        obs.append({'act': act, 'state': {
+            'objs': sorted(live), 'ref': [live.get(o, 0) for o in range(1, nobj + 1)],
+            'len': [length if o in live else -1 for o in range(1, nobj + 1)], 'nobj': nobj,
+            'prox': sorted([list(p) for p in prox]), 'nprox': nprox[0], 'last': list(last)}})
+    snap({'name': 'Init'})
+    p = m.list()
+    o = aid(p._id)
+    nprox[0] += 1
+    mine = (1, o, nprox[0])
+    prox.add(mine)
+    snap({'name': 'Create', 'c': 1, 'o': o}, ('created', o))
+    r1, w1 = ctx.Pipe(duplex=False)
+    r2, w2 = ctx.Pipe(duplex=False)
+    ch = ctx.Process(target=targets.mgr_child_arg, args=(p, r1, w2))
+    ch.start()
+    for attr in ('_args', '_kwargs'):           # the parent's Process object must not keep the proxy alive
+        try:
+            setattr(ch, attr, () if attr == '_args' else {})
+        except Exception:
+            pass
+    if not r2.poll(60) or r2.recv() != 'have':
+        raise RuntimeError('child did not come up')
+    nprox[0] += 1
+    theirs = (2, o, nprox[0])
+    prox.add(theirs)
+    snap({'name': 'Share', 'p': list(mine), 'c': 2}, ('created', o))
+    p._close()
+    del p
+    import gc
+    gc.collect()
+    prox.discard(mine)
+    time.sleep(0.1)
+    snap({'name': 'Drop', 'p': list(mine)}, ('created', o))
+    w1.send('append')
+    ans = r2.recv() if r2.poll(30) else 'silent'
+    snap({'name': 'Call', 'p': list(theirs), 'op': 'append'}, ('return', 0) if ans == 'ok' else ('lost', 0),
+         length=1)
+    w1.send('drop')
+    r2.poll(30) and r2.recv()
+    prox.discard(theirs)
+    time.sleep(0.1)
+    snap({'name': 'Drop', 'p': list(theirs)}, ('return', 0), length=1)
+    w1.send('bye')
+    ch.join(10)
+    return obs
+
+
+class _HM(bm.BaseManager):
+    pass
+
+
+_HM.register('Holder', targets.Holder, method_to_typeid={'child': 'Inner'})
+_HM.register('Inner', create_method=False)
+
+
+def shared_twice():
+    """one server object handed out twice (a method whose result type is registered without a
+    constructor): it lives as long as either proxy does"""
+    m = _HM(ctx=billiard.get_context('fork'))
+    m.start()
+    try:
+        h = m.Holder()
+        a = h.child()
+        b = h.child()
+        same = a._id == b._id
+        n0 = m._number_of_objects()
+        a.bump()
+        del a
+        import gc
+        gc.collect()
+        time.sleep(0.1)
+        n1 = m._number_of_objects()
+        try:
+            alive = b.bump() == 2
+            err = ''
+        except Exception as exc:      # noqa
+            alive, err = False, type(exc).__name__
+        return {'same_object': same, 'objects_before': n0, 'objects_after_drop': n1, 'alive': alive, 'err': err}
+    finally:
+        m.shutdown()
+
+
+def hostile(m):
+    """a client without the key that ignores the server's FAILURE and carries on with the protocol"""
+    from billiard import connection as bc
+    out = {'served': False, 'how': ''}
+    try:
+        c = bc.SocketClient(m.address) if hasattr(bc, 'SocketClient') else None
+        if c is None:
+            return {'served': False, 'how': 'no raw client'}
+        msg = c.recv_bytes(256)                   # the server's challenge
+        c.send_bytes(b'\x00' * 16)                # a digest we cannot know
+        try:
+            c.recv_bytes(256)                     # FAILURE -- ignored
+            c.send_bytes(bc.CHALLENGE + b'x' * 20)     # our own challenge, as if nothing had happened
+            if c.poll(3):
+                c.recv_bytes(256)                 # the server answers it?
+                c.send_bytes(bc.WELCOME)
+                c.send((None, 'number_of_objects', (), {}))
+                if c.poll(3):
+                    out = {'served': True, 'how': repr(c.recv())[:80]}
+        except (EOFError, OSError) as exc:
+            out['how'] = 'dropped:' + type(exc).__name__
+    except Exception as exc:      # noqa
+        out['how'] = 'error:' + type(exc).__name__
+    return out
+
+
 def concurrent(m, ctx, nproc, n):
     lst, d, val, lock = m.list(), m.dict(), m.Value('i', 0), m.Lock()
     ps = [ctx.Process(target=targets.mgr_appender, args=(lst, d, val, lock, n, w)) for w in range(nproc)]
@@ -233,11 +357,14 @@ def main():
         res['lifetime'] = [lifetime(m, ctx) for _ in range(3 if thorough else 2)]
         res['concurrent'] = concurrent(m, ctx, 4, 60 if thorough else 25)
         res['key'] = wrong_key(m)
+        res['hostile'] = hostile(m)
+        res['lifetime'] += [lifetime_inherited(m, 'spawn')] + ([lifetime_inherited(m, 'forkserver')] if thorough else [])
     finally:
         try:
             m.shutdown()
         except Exception:
             pass
+    res['shared_twice'] = shared_twice()
     with open(out + '.tmp', 'w') as fh:
         json.dump(res, fh)
     os.replace(out + '.tmp', out)
